@@ -34,8 +34,9 @@ Fixpoint zipwith {A B C} (f : A -> B -> C) (x : list A) (y : list B) : list C :=
 
 Definition total (l : list nat) : nat := fold_right Nat.add 0 l.
 
-Definition triangleset {A} (vcounts : list nat) (rows : list A) : outcome (list (tri A)) :=
-  let nv := match rows with [] => 0 | _ => total vcounts end in
+(* the two integer arrays computed before the index is touched: the selected positions
+   (indexselector) and their offsets inside their polygon (firstpolyindex[indexselector]) *)
+Definition selectors (nv : nat) (vcounts : list nat) : outcome (list Z * list Z) :=
   let ends := cumsum vcounts in
   let starts := zipwith Nat.sub ends vcounts in
   let sel0 := repeat true nv in
@@ -48,14 +49,22 @@ Definition triangleset {A} (vcounts : list nat) (rows : list A) : outcome (list 
   if negb (Nat.eqb (length rep) nv) then Raise PyValueError else
   let first := zipwith (fun j s => (Z.of_nat j - Z.of_nat s)%Z) (seq 0 nv) rep in
   let sel := map Z.of_nat selected in
-  obind (np_take first sel) (fun fp =>
+  obind (np_take first sel) (fun fp => Ok (sel, fp))))).
+
+(* the three gathers and numpy.dstack / swapaxes: triangle i = (index[sel_i - fp_i], index[sel_i + 1],
+   index[sel_i + 2]) *)
+Definition gather3 {A} (rows : list A) (sel fp : list Z) : outcome (list (tri A)) :=
   match rows with
   | [] => Ok []
   | _ => obind (np_take rows (zipwith Z.sub sel fp)) (fun a =>
          obind (np_take rows (map (fun j => (j + 1)%Z) sel)) (fun b =>
          obind (np_take rows (map (fun j => (j + 2)%Z) sel)) (fun c =>
          stack3 a b c)))
-  end)))).
+  end.
+
+Definition triangleset {A} (vcounts : list nat) (rows : list A) : outcome (list (tri A)) :=
+  let nv := match rows with [] => 0 | _ => total vcounts end in
+  obind (selectors nv vcounts) (fun sf => gather3 rows (fst sf) (snd sf)).
 
 (* Polylist.__getitem__(i): the rows polystarts[i] .. polyends[i] *)
 Definition polygon_rows {A} (vcounts : list nat) (rows : list A) : list (list A) :=
